@@ -52,6 +52,7 @@ func main() {
 	}
 	p.BuildSummaries()
 	p.BuildLockInfo()
+	p.BuildFrozen()
 	work, err := os.MkdirTemp("", "lhv-")
 	if err != nil {
 		fmt.Fprintln(os.Stderr, err)
